@@ -25,6 +25,33 @@ class _Model:
     pass
 
 
+_TEMPLATE = {}
+
+
+def _fresh_model():
+    """a stand-in `self` carrying the plain-data state a freshly constructed real model has (so code that starts relying on a new attribute
+    initialised in __init__ is exercised, not crashed): the real kPathCoverCycles constructor is run once on a one-edge graph and the
+    attributes of basic type are copied (deep) into every stand-in; G, k and the solution values are then overridden."""
+    import copy
+    if not _TEMPLATE:
+        import networkx as nx
+        import flowpaths as fp
+        g = nx.DiGraph()
+        g.add_edge("a", "b", flow=1)
+        real = fp.kPathCoverCycles(g, k=1)
+        basic = (dict, list, set, tuple, int, float, str, bool, type(None))
+        def plain(v, d=0):
+            if isinstance(v, (dict,)):
+                return d < 3 and all(plain(a, d + 1) and plain(b, d + 1) for a, b in v.items())
+            if isinstance(v, (list, set, tuple)):
+                return d < 3 and all(plain(a, d + 1) for a in v)
+            return isinstance(v, basic)
+        _TEMPLATE["attrs"] = {k: v for k, v in vars(real).items() if plain(v)}
+    m = _Model()
+    m.__dict__.update(copy.deepcopy(_TEMPLATE["attrs"]))
+    return m
+
+
 def _decoder():
     from flowpaths.abstractwalkmodeldigraph import AbstractWalkModelDiGraph as A
     return A
@@ -99,7 +126,7 @@ def check(case):
     perms = itertools.permutations(idx_used) if len(idx_used) <= 6 else itertools.islice(itertools.permutations(idx_used), 0, 720)
     for perm in perms:
         n_orders += 1
-        m = _Model()
+        m = _fresh_model()
         m.G = _G([S] + inner + [T], all_edges, S, T, list(perm) + rest)
         m.k = 1
         m.edge_vars_sol = {(str(u), str(v), 0): float(c) for (u, v), c in mult.items()}
@@ -108,6 +135,10 @@ def check(case):
         m._reconstruct_eulerian_walk = lambda rg, i, m=m: A._reconstruct_eulerian_walk(m, rg, i)
         m._build_closed_walk_from_vertex = lambda g, v, st, m=m: A._build_closed_walk_from_vertex(m, g, v, st)
         walks = A.get_solution_walks(m)
+        again = A.get_solution_walks(m)
+        if again != walks:
+            return dict(ok=False, nontrivial=True, fingerprint="reconstructing the walks a second time gives a different answer",
+                        what="mult=%s first=%s second=%s" % (sorted(mult.items()), walks, again))
         if len(walks) != 1:
             return dict(ok=False, nontrivial=True, fingerprint="walk decoder does not return one walk per layer", what="%d walks for k=1" % len(walks))
         w = walks[0]
